@@ -133,7 +133,7 @@ def run(tier: str, seed: int) -> int:
         groups = man['groups']
         cov['files'] = st['files']
         cov['constant_groups'] = {g['name']: g['files'] for g in groups}
-        if st['files'] < 15 or not groups:
+        if st['files'] < 18 or not groups:
             raise core.MachineryError(f'prepare produced {st}')
         ref = groups[0]['name']     # the fully populated standard layouts
         mark('prepare')
